@@ -1,5 +1,5 @@
 (* Facts about the encoder tree builder, instantiated on the regenerated schemas. *)
-From Coq Require Import List NArith ZArith Bool PArith.
+From Coq Require Import List NArith ZArith Bool PArith Lia.
 From Stef Require Import Schema Schemas.
 Import ListNotations.
 Open Scope N_scope.
@@ -29,3 +29,112 @@ Definition all_roots_build_ok (l : list schema) : bool := forallb roots_build_ok
 
 Lemma all_schemas_build : all_roots_build_ok all_schemas = true.
 Proof. vm_compute. reflexivity. Qed.
+
+(* ---- wire schema override (schema evolution, C04 / C13) ---- *)
+(* getFieldCount memoises: once a struct's count is fetched, later requests return it without
+   consuming the override iterator *)
+Lemma field_count_memo : forall st sid own,
+  let '(c, st') := field_count st sid own in
+  field_count st' sid own = (c, st').
+Proof.
+  intros st sid own. unfold field_count.
+  destruct (memo_find (i_memo st) sid) as [c|] eqn:Hm.
+  - rewrite Hm. reflexivity.
+  - destruct (i_over st) as [[|c r]|]; cbn [i_memo memo_find]; rewrite N.eqb_refl; reflexivity.
+Qed.
+
+Definition counts_of (st : istate) : list N := rev (map snd (i_memo st)).
+
+Fixpoint list_N_eqb (a b : list N) : bool :=
+  match a, b with
+  | [], [] => true
+  | x :: a', y :: b' => (x =? y) && list_N_eqb a' b'
+  | _, _ => false
+  end.
+
+(* for a root: the counts the generated Init fetches (in first-encounter order) form the wire
+   schema; feeding that wire schema back as an override is accepted, consumed completely, fetches
+   the same counts and allocates the same number of columns *)
+Definition override_roundtrip_ok (sc : schema) (r : N) : bool :=
+  let '(t0, st0) := build_root sc r None in
+  let own := counts_of st0 in
+  let '(t1, st1) := build_root sc r (Some own) in
+  negb (i_err st1) && all_fetched st1 && list_N_eqb (counts_of st1) own && Pos.eqb (i_next st1) (i_next st0).
+
+Definition all_override_ok (l : list schema) : bool :=
+  forallb (fun sc => forallb (override_roundtrip_ok sc) (root_ids sc)) l.
+
+Lemma all_schemas_override_ok : all_override_ok all_schemas = true.
+Proof. vm_compute. reflexivity. Qed.
+
+
+Lemma field_count_err_mono : forall st sid own, i_err st = true -> i_err (snd (field_count st sid own)) = true.
+Proof.
+  intros st sid own H. unfold field_count.
+  destruct (memo_find (i_memo st) sid); [exact H|].
+  destruct (i_over st) as [[|c r]|]; cbn; try exact H; reflexivity.
+Qed.
+
+Lemma build_err_mono : forall sc f stack t st, i_err st = true -> i_err (snd (build sc f stack t st)) = true.
+Proof.
+  intros sc f. induction f as [|f IH]; intros stack t st H.
+  - reflexivity.
+  - cbn [build]. destruct (on_stack stack (key_of t)); [exact H|].
+    destruct (fresh_col st) as [col st1] eqn:Hfc.
+    assert (H1 : i_err st1 = true) by (unfold fresh_col in Hfc; inversion Hfc; subst; exact H).
+    destruct t as [p d|e|s|m].
+    + exact H1.
+    + pose proof (IH (key_of (TArray e) :: stack) e st1 H1) as Hb.
+      destruct (build sc f (key_of (TArray e) :: stack) e st1) as [et st2]. exact Hb.
+    + destruct (field_count st1 s (N.of_nat (length (s_fields (get_struct sc s))))) as [fc st2] eqn:Hfcnt.
+      assert (H2 : i_err st2 = true).
+      { pose proof (field_count_err_mono st1 s (N.of_nat (length (s_fields (get_struct sc s)))) H1) as Hm.
+        rewrite Hfcnt in Hm. exact Hm. }
+      set (st3 := if N.of_nat (length (s_fields (get_struct sc s))) <? fc then set_err st2 else st2).
+      assert (H3 : i_err st3 = true) by (unfold st3; destruct (_ <? fc); [reflexivity|exact H2]).
+      assert (Hfold : forall fl acc, i_err (snd acc) = true ->
+                i_err (snd (fold_left (fun (acc : list etree * istate) (fl : field) =>
+                             let '(l, st) := acc in
+                             let '(ft, st) := build sc f (KStruct s :: stack) (f_type fl) st in (l ++ [ft], st)) fl acc)) = true).
+      { induction fl as [|x fl IHf]; intros acc Hacc; cbn [fold_left]; [exact Hacc|].
+        apply IHf. destruct acc as [l s0]. cbn [snd] in *.
+        pose proof (IH (KStruct s :: stack) (f_type x) s0 Hacc) as Hm.
+        destruct (build sc f (KStruct s :: stack) (f_type x) s0) as [ft s1]. exact Hm. }
+      match goal with |- context [fold_left ?F ?L ?A] => specialize (Hfold L A) end.
+      cbn [snd] in Hfold. specialize (Hfold H3).
+      match goal with |- context [fold_left ?F ?L ?A] => destruct (fold_left F L A) as [fts st4] end.
+      exact Hfold.
+    + pose proof (IH (KMap m :: stack) (m_key (get_mmap sc m)) st1 H1) as Hk.
+      destruct (build sc f (KMap m :: stack) (m_key (get_mmap sc m)) st1) as [kt st2]. cbn [snd] in Hk.
+      pose proof (IH (KMap m :: stack) (m_val (get_mmap sc m)) st2 Hk) as Hv.
+      destruct (build sc f (KMap m :: stack) (m_val (get_mmap sc m)) st2) as [vt st3]. exact Hv.
+Qed.
+
+(* a descriptor that announces more fields than the reader's struct has is refused *)
+Lemma too_many_fields_refused : forall sc stack sid st f,
+  let sd := get_struct sc sid in
+  let own := N.of_nat (length (s_fields sd)) in
+  on_stack stack (KStruct sid) = false ->
+  own < fst (field_count (snd (fresh_col st)) sid own) ->
+  i_err (snd (build sc (S f) stack (TStruct sid) st)) = true.
+Proof.
+  intros sc stack sid st f sd own Hst Hlt.
+  cbn [build key_of]. rewrite Hst.
+  destruct (fresh_col st) as [col st1] eqn:Hfc. cbn [snd] in Hlt.
+  fold sd. fold own.
+  destruct (field_count st1 sid own) as [fc st2] eqn:Hfcnt. cbn [fst] in Hlt.
+  destruct (N.ltb_spec own fc); [|lia].
+  (* the error flag set here is never cleared by the fold over the fields *)
+  assert (Hmono : forall fl acc, i_err (snd acc) = true ->
+            i_err (snd (fold_left (fun (acc : list etree * istate) (fl : field) =>
+                         let '(l, st) := acc in
+                         let '(ft, st) := build sc f (KStruct sid :: stack) (f_type fl) st in (l ++ [ft], st)) fl acc)) = true).
+  { induction fl as [|x fl IH]; intros acc Hacc; cbn [fold_left]; [exact Hacc|].
+    apply IH. destruct acc as [l s0]. cbn [snd] in *.
+    destruct (build sc f (KStruct sid :: stack) (f_type x) s0) as [ft s1] eqn:Hb. cbn [snd].
+    pose proof (build_err_mono sc f (KStruct sid :: stack) (f_type x) s0 Hacc) as Hm. rewrite Hb in Hm. exact Hm. }
+  match goal with |- context [fold_left ?F ?L ?A] => specialize (Hmono L A) end.
+  cbn [snd] in Hmono. specialize (Hmono eq_refl).
+  match goal with |- context [fold_left ?F ?L ?A] => destruct (fold_left F L A) as [fts st3] end.
+  cbn [snd] in *. exact Hmono.
+Qed.
